@@ -320,6 +320,12 @@ class BaseState(ABC):
         assert isinstance(self.state, jnp.ndarray)
         assert self.state.shape == (self.dimensions, self.dimensions)
 
+        for op in operators:
+            if op.shape != (self.dimensions, self.dimensions):
+                raise ValueError(
+                    "Measurement operator dimensions do not match state dimensions"
+                )
+
         # Compute probabilities p(i) = Tr(M_i rho M_i^dagger) for each operator M_i
         probabilities = jnp.array(
             [
